@@ -590,41 +590,41 @@ def faceeval(f, *args):
     """
     if len(args)==1:
         return FaceVariable(args[0].domain,
-                            f(args[0]._xvalue),
-                            f(args[0]._yvalue),
-                            f(args[0]._zvalue))
+                            np.array(f(args[0]._xvalue)),
+                            np.array(f(args[0]._yvalue)),
+                            np.array(f(args[0]._zvalue)))
     elif len(args)==2:
         return FaceVariable(args[0].domain,
-                            f(args[0]._xvalue, args[1]._xvalue),
-                            f(args[0]._yvalue, args[1]._yvalue),
-                            f(args[0]._zvalue, args[1]._zvalue))
+                            np.array(f(args[0]._xvalue, args[1]._xvalue)),
+                            np.array(f(args[0]._yvalue, args[1]._yvalue)),
+                            np.array(f(args[0]._zvalue, args[1]._zvalue)))
     elif len(args)==3:
         return FaceVariable(args[0].domain,
-                            f(args[0]._xvalue, args[1]._xvalue, args[2]._xvalue),
-                            f(args[0]._yvalue, args[1]._yvalue, args[2]._yvalue),
-                            f(args[0]._zvalue, args[1]._zvalue, args[2]._zvalue))
+                            np.array(f(args[0]._xvalue, args[1]._xvalue, args[2]._xvalue)),
+                            np.array(f(args[0]._yvalue, args[1]._yvalue, args[2]._yvalue)),
+                            np.array(f(args[0]._zvalue, args[1]._zvalue, args[2]._zvalue)))
     elif len(args)==4:
         return FaceVariable(args[0].domain,
-                            f(args[0]._xvalue, args[1]._xvalue, args[2]._xvalue, args[3]._xvalue),
-                            f(args[0]._yvalue, args[1]._yvalue, args[2]._yvalue, args[3]._yvalue),
-                            f(args[0]._zvalue, args[1]._zvalue, args[2]._zvalue, args[3]._zvalue))
+                            np.array(f(args[0]._xvalue, args[1]._xvalue, args[2]._xvalue, args[3]._xvalue)),
+                            np.array(f(args[0]._yvalue, args[1]._yvalue, args[2]._yvalue, args[3]._yvalue)),
+                            np.array(f(args[0]._zvalue, args[1]._zvalue, args[2]._zvalue, args[3]._zvalue)))
     elif len(args)==5:
         return FaceVariable(args[0].domain,
-                            f(args[0]._xvalue, args[1]._xvalue, args[2]._xvalue, args[3]._xvalue, args[4]._xvalue),
-                            f(args[0]._yvalue, args[1]._yvalue, args[2]._yvalue, args[3]._yvalue, args[4]._yvalue),
-                            f(args[0]._zvalue, args[1]._zvalue, args[2]._zvalue, args[3]._zvalue, args[4]._zvalue))
+                            np.array(f(args[0]._xvalue, args[1]._xvalue, args[2]._xvalue, args[3]._xvalue, args[4]._xvalue)),
+                            np.array(f(args[0]._yvalue, args[1]._yvalue, args[2]._yvalue, args[3]._yvalue, args[4]._yvalue)),
+                            np.array(f(args[0]._zvalue, args[1]._zvalue, args[2]._zvalue, args[3]._zvalue, args[4]._zvalue)))
     elif len(args)==6:
         return FaceVariable(args[0].domain,
-                            f(args[0]._xvalue, args[1]._xvalue, args[2]._xvalue, args[3]._xvalue, args[4]._xvalue, args[5]._xvalue),
-                            f(args[0]._yvalue, args[1]._yvalue, args[2]._yvalue, args[3]._yvalue, args[4]._yvalue, args[5]._yvalue),
-                            f(args[0]._zvalue, args[1]._zvalue, args[2]._zvalue, args[3]._zvalue, args[4]._zvalue, args[5]._zvalue))
+                            np.array(f(args[0]._xvalue, args[1]._xvalue, args[2]._xvalue, args[3]._xvalue, args[4]._xvalue, args[5]._xvalue)),
+                            np.array(f(args[0]._yvalue, args[1]._yvalue, args[2]._yvalue, args[3]._yvalue, args[4]._yvalue, args[5]._yvalue)),
+                            np.array(f(args[0]._zvalue, args[1]._zvalue, args[2]._zvalue, args[3]._zvalue, args[4]._zvalue, args[5]._zvalue)))
     elif len(args)==7:
         return FaceVariable(args[0].domain,
-                            f(args[0]._xvalue, args[1]._xvalue, args[2]._xvalue, args[3]._xvalue, args[4]._xvalue, args[5]._xvalue, args[6]._xvalue),
-                            f(args[0]._yvalue, args[1]._yvalue, args[2]._yvalue, args[3]._yvalue, args[4]._yvalue, args[5]._yvalue, args[6]._yvalue),
-                            f(args[0]._zvalue, args[1]._zvalue, args[2]._zvalue, args[3]._zvalue, args[4]._zvalue, args[5]._zvalue, args[6]._zvalue))
+                            np.array(f(args[0]._xvalue, args[1]._xvalue, args[2]._xvalue, args[3]._xvalue, args[4]._xvalue, args[5]._xvalue, args[6]._xvalue)),
+                            np.array(f(args[0]._yvalue, args[1]._yvalue, args[2]._yvalue, args[3]._yvalue, args[4]._yvalue, args[5]._yvalue, args[6]._yvalue)),
+                            np.array(f(args[0]._zvalue, args[1]._zvalue, args[2]._zvalue, args[3]._zvalue, args[4]._zvalue, args[5]._zvalue, args[6]._zvalue)))
     elif len(args)==8:
         return FaceVariable(args[0].domain,
-                            f(args[0]._xvalue, args[1]._xvalue, args[2]._xvalue, args[3]._xvalue, args[4]._xvalue, args[5]._xvalue, args[6]._xvalue, args[7]._xvalue),
-                            f(args[0]._yvalue, args[1]._yvalue, args[2]._yvalue, args[3]._yvalue, args[4]._yvalue, args[5]._yvalue, args[6]._yvalue, args[7]._yvalue),
-                            f(args[0]._zvalue, args[1]._zvalue, args[2]._zvalue, args[3]._zvalue, args[4]._zvalue, args[5]._zvalue, args[6]._zvalue, args[7]._zvalue))
+                            np.array(f(args[0]._xvalue, args[1]._xvalue, args[2]._xvalue, args[3]._xvalue, args[4]._xvalue, args[5]._xvalue, args[6]._xvalue, args[7]._xvalue)),
+                            np.array(f(args[0]._yvalue, args[1]._yvalue, args[2]._yvalue, args[3]._yvalue, args[4]._yvalue, args[5]._yvalue, args[6]._yvalue, args[7]._yvalue)),
+                            np.array(f(args[0]._zvalue, args[1]._zvalue, args[2]._zvalue, args[3]._zvalue, args[4]._zvalue, args[5]._zvalue, args[6]._zvalue, args[7]._zvalue)))
